@@ -1,17 +1,18 @@
 """C02: exotic cells, level masks, per-level hashes, Merkle pruning invariance."""
 from ..gen import cells as G
-from ..translate import arith
+from ..translate import arith, cellctor
 from .C01 import cmp_obs, spec_obs
 
 SPEC = dict(
     manifest=dict(
         category='proof',
-        text="Lean proves (Proofs/CellSpec.lean, 750 lines) that for every spec-valid tree with pruned branches of any mask 1..7, library cells, Merkle proofs/updates in any nesting, the model of the constructor succeeds and reports exactly the spec's level mask and per-level hash/depth at every level (loop invariant over calculate_hashes vs. level recursion of the spec); pruning invariance is proved for ALL Merkle depths (Proofs/Prune.lean, c02_prune_invariant_spec / c02_prune_invariant): if t' is t with any set of subtrees replaced by pruned branches of mask (mask s % 2^(d-1)) | 2^(d-1) carrying hashAt/depthAt s l for the significant l < d (d grows by one under every Merkle cell), then for every l < d hash, depth and the mask bits below l of t' are those of t (d = 1: the level-0 hash of every enclosing cell is unchanged), with no assumption on the hash function; validity of the pruned tree is DERIVED (Proofs/PruneWF.lean, c02_prune_valid): for a spec-valid t at Merkle depth d >= 1 whose level mask is below 2^(d-1) (d = 1: a level-0 tree) every pruning t' is spec-valid again (pruned cells have 16+272k <= 832 bits, mask 1..7, no refs; at every level t' is at most as deep as t, so the 1023 depth limit is kept), hence constructible, and the model-level statement c02_prune_invariant / c02_prune_level0 (Cell.info: get_hash/get_depth/level_mask) assumes spec-validity of t only; and it is tested through the library. Tie: correspondence library = model = Lean spec = independent Python spec on generated exotic trees, prunings and malformed cells. The integer arithmetic the model rests on (descriptors, level-mask functions, depth limit, pruned offsets) is additionally REGENERATED from the Python source on every run and proved equal to the model/spec for all inputs (c0x_src_* theorems).",
-        level_note='Trusted: Lean kernel, Spec/Cell.lean as the TON rule (cross-checked against an independent Python transcription on every run), Model/Cell.lean as a hand transcription of the code (sampled correspondence), the harness.',
-        technique='Lean 4 refinement proof (hand model) + differential correspondence with the library + source-regenerated arithmetic lemmas',
+        text="Lean proves (Proofs/CellSpec.lean, 750 lines) that for every spec-valid tree with pruned branches of any mask 1..7, library cells, Merkle proofs/updates in any nesting, the model of the constructor succeeds and reports exactly the spec's level mask and per-level hash/depth at every level (loop invariant over calculate_hashes vs. level recursion of the spec); pruning invariance is proved for ALL Merkle depths (Proofs/Prune.lean, c02_prune_invariant_spec / c02_prune_invariant): if t' is t with any set of subtrees replaced by pruned branches of mask (mask s % 2^(d-1)) | 2^(d-1) carrying hashAt/depthAt s l for the significant l < d (d grows by one under every Merkle cell), then for every l < d hash, depth and the mask bits below l of t' are those of t (d = 1: the level-0 hash of every enclosing cell is unchanged), with no assumption on the hash function; validity of the pruned tree is DERIVED (Proofs/PruneWF.lean, c02_prune_valid): for a spec-valid t at Merkle depth d >= 1 whose level mask is below 2^(d-1) (d = 1: a level-0 tree) every pruning t' is spec-valid again (pruned cells have 16+272k <= 832 bits, mask 1..7, no refs; at every level t' is at most as deep as t, so the 1023 depth limit is kept), hence constructible, and the model-level statement c02_prune_invariant / c02_prune_level0 (Cell.info: get_hash/get_depth/level_mask) assumes spec-validity of t only; and it is tested through the library. Tie: correspondence library = model = Lean spec = independent Python spec on generated exotic trees, prunings and malformed cells. The integer arithmetic the model rests on (descriptors, level-mask functions, depth limit, pruned offsets) is additionally REGENERATED from the Python source on every run and proved equal to the model/spec for all inputs (c0x_src_* theorems). The WHOLE constructor is regenerated too: Cell.__init__, resolve_mask (all five cell types and the unknown-type error), the calculate_hashes loop over the levels (significant levels, hash_index / hash_index_offset, the three raise points, previous hash vs cell data, Merkle cells reading their children one level up, depth limit), get_descriptors, get_data_bytes, get_hash / get_depth (pruned-branch slices) and NullCell.__init__ are re-translated into Generated/CellCtor.lean on every run (harness/translate/pyobj.py + cellctor.py; validated against the running library on about 480 cells of every type and mask whenever source or translator change), and Lean proves for ALL cell types, bit strings and child infos that the regenerated constructor equals the hand model Model.construct incl. Cell.hash = the LAST hash, descriptor bytes and padded data (c02_src_constructor, c02_src_calculate_hashes; Proofs/SrcCellCtor.lean). Hence c02_model_eq_spec holds for what the source computes (c02_src_eq_spec) and the pruning theorems inherit an all-input tie. A source change inside the translatable subset breaks this proof; the check then evaluates regenerated constructor vs model on boundary DAGs and hands the differing cells to the oracle; outside the subset the tie is reported lost and the sampled correspondence decides.",
+        level_note='Trusted: Lean kernel, Spec/Cell.lean as the TON rule (cross-checked against an independent Python transcription on every run), the source translators pyarith.py / pyobj.py with their declared interface (attribute types, a child cell = its CellInfo, sha256 streaming = hash of the concatenation, built-ins of PyObj.lean; differentially validated against CPython), Model/Cell.lean as a hand transcription of the code (constructor, get_hash, get_depth: proved equal to the regenerated source; get_representation and the rest: sampled correspondence), the harness.',
+        technique='Lean 4 refinement proof (hand model) + constructor regenerated from the source and proved equal to the model for all inputs + differential correspondence with the library',
     ),
     translators=[('exotic.py LevelMask->Generated/LevelMask.lean', arith.regenerator('LevelMask')),
-                 ('cell.py d1/d2/pruned offsets->Generated/CellArith.lean', arith.regenerator('CellArith'))],
+                 ('cell.py d1/d2/pruned offsets->Generated/CellArith.lean', arith.regenerator('CellArith')),
+                 ('cell.py Cell.__init__/resolve_mask/calculate_hashes/get_hash/get_depth->Generated/CellCtor.lean', cellctor.regenerate)],
     design_ref='DESIGN.md §6 C02',
     rule='trees with pruned branches of all 7 masks, library cells, Merkle proofs/updates nested up to level 3, random pruning sets; '
          'each node compared library vs Lean model vs Lean spec vs Python spec; plus a malformed stream (wrong sizes/tags/ref counts) '
@@ -19,7 +20,8 @@ SPEC = dict(
     trusted_base=['Model/Cell.lean mirrors Cell.__init__/resolve_mask/calculate_hashes/get_hash/get_depth by hand',
                   'Spec/Cell.lean transcribes the TON level-mask / per-level hash rules (DataCell.cpp, tvm.pdf 3.1.6-3.1.7)',
                   'SHA-256 abstract in theorems',
-                  'harness/translate/pyarith.py + arith.py (Python int arithmetic -> Lean) and lean/TonVerif/PyInt.lean (meaning of bit_length / bin().count) for the c02_src_* theorems'],
+                  'harness/translate/pyarith.py + arith.py (Python int arithmetic -> Lean) and lean/TonVerif/PyInt.lean (meaning of bit_length / bin().count) for the c02_src_* theorems',
+                  'harness/translate/pyobj.py + cellctor.py (object programs -> Lean) with the declared interface in cellctor.py and lean/TonVerif/PyObj.lean, PyBytes.lean for c02_src_constructor (design/translators-cell.md)'],
     assumptions=['hashlib.sha256 is SHA-256', 'correspondence is sampled'],
 )
 
@@ -184,12 +186,26 @@ def pruned_family(ctx, mask, tag):
     check_dag(ctx, db.nodes, tag)
 
 
+def src_ctor_search(ctx):
+    """Search mode only: the cells on which the REGENERATED constructor (Generated/CellCtor.lean) and the hand model differ
+    (evaluated by Lean on the validation DAGs: every type, every pruned mask under ordinary / Merkle parents, malformed cells,
+    depth limits), each handed to the oracle.  True = a concrete failing input was found."""
+    n0 = len(ctx.failures)
+    found = cellctor.diff_dags(ctx, cellctor.validation_dags())
+    found.sort(key=lambda f: sum(len(n[1]) for n in f[1]))
+    for tag, nodes, idx in found[:40]:
+        check_dag(ctx, nodes[:max(idx) + 1], f'src-ctor-{tag}', routes=('ctor',), boc=False)
+        if len(ctx.failures) > n0 + 3:
+            break
+    return len(ctx.failures) > n0
+
+
 def src_search(ctx):
     """Search mode only: the points where a regenerated definition (Generated/LevelMask.lean, CellArith.lean) differs from
     the function it is proved equal to, turned into exotic trees for the oracle.  True = a concrete failing input was found."""
     found = arith.search_points(ctx, ['LevelMask', 'CellArith'])
     if not found:
-        return False
+        return src_ctor_search(ctx)
     n0 = len(ctx.failures)
     masks = set()
     for name in ('lmLevel', 'lmHashIndex', 'lmApply', 'lmIsSignificant'):
@@ -208,7 +224,7 @@ def src_search(ctx):
         masks.add(1)        # the family contains Merkle cells (exotic, and of mask 0 above a level-1 branch)
     for m in sorted(masks):
         pruned_family(ctx, m, f'src-pruned-mask{m}')
-    return len(ctx.failures) > n0
+    return len(ctx.failures) > n0 or src_ctor_search(ctx)
 
 
 def run(ctx):
